@@ -375,6 +375,10 @@ class TestCase(unittest.TestCase):
         self.__exception_handlers.append(handler)
 
     def _add_reason(self, reason):
+        if not isinstance(reason, str):
+            # skipTest documents that the reason only has to support being
+            # cast into a string.
+            reason = str(reason)
         self.addDetail("reason", content.text_content(reason))
 
     def assertEqual(self, expected, observed, message=""):
